@@ -142,8 +142,9 @@ class Verdict:
         ev = {"property_id": self.pid, "tier": self.tier, "seed": seed(), "level": level,
               "coverage": self.cov, "assumptions": self.assumptions, "wall_s": round(wall, 2),
               "violations": len(self.violations)}
-        os.makedirs(os.path.join(VERIF, "evidence"), exist_ok=True)
-        with open(os.path.join(VERIF, "evidence", self.pid + ".json"), "w") as f:
+        evd = os.environ.get("VERIF_EVIDENCE", os.path.join(VERIF, "evidence"))
+        os.makedirs(evd, exist_ok=True)
+        with open(os.path.join(evd, self.pid + ".json"), "w") as f:
             json.dump(ev, f, indent=1, default=str)
         for pat, (text, n, ex) in self.known_seen.items():
             print("KNOWN-FINDING: property=%s %s (key %s, observed %d times, e.g. %s)"
